@@ -167,12 +167,30 @@ def r3(ctx, prog):
         w = cfg.guarded(cfg.pt(c), rl.fact_field_eq(f, "full_aligned", 0))
         ctx.check(R, w is None, f.where(c), "p is used as a block start only when the page has no aligned blocks (flags.full_aligned == 0)", key="C03.R3:fast", witness=w)
     g = prog.fn("mi_free_generic_local")
-    bl = [dd for _, dd in rl.local_decl(g, lambda dd: "init" in dd and g.nodes[g.strip(dd["init"])]["k"] == "ConditionalOperator")]
-    ok = len(bl) == 1
-    if ok:
-        n = g.nodes[g.strip(bl[0]["init"])]
-        ok = rl.is_call(g, g.strip(n["cond"]), "mi_page_has_aligned") and rl.is_call(g, g.strip(n["then"]), "_mi_page_ptr_unalign") and rl.var_of(g, n["else"]) == g.param_id(2)
-    ctx.check(R, ok, g.where(), "block = has_aligned ? _mi_page_ptr_unalign(page,p) : p", key="C03.R3:local")
+    # what reaches mi_free_block_local as the block: on every path either the un-aligned pointer, or the raw user pointer
+    # under the knowledge that the page has no aligned blocks (the `?:` on has_aligned, or a dominating test)
+    pu = g.param_id(2)
+
+    def block_ok(h_, e, site, depth=4):
+        j = h_.strip(e)
+        n = h_.nodes[j]
+        if rl.is_call(h_, j, "_mi_page_ptr_unalign"):
+            return True
+        if n["k"] == "ConditionalOperator":
+            if rl.is_call(h_, h_.strip(n["cond"]), "mi_page_has_aligned"):
+                return block_ok(h_, n["then"], site, depth) and (block_ok(h_, n["else"], site, depth) or rl.var_of(h_, n["else"]) in h_.pids)
+            return block_ok(h_, n["then"], site, depth) and block_ok(h_, n["else"], site, depth)
+        if n["k"] == "DeclRefExpr":
+            if n["d"] in h_.pids:
+                # raw user pointer: only where has_aligned is known to be false
+                return h_.cfg.guarded(h_.cfg.pt(site), rl.fact_call_false(h_, "mi_page_has_aligned")) is None
+            if depth > 0:
+                defs = [rhs for a_, rhs, op in rl.reaching_defs(h_, n["d"], site) if rhs is not None]
+                return bool(defs) and all(block_ok(h_, r_, site, depth - 1) for r_ in defs)
+        return False
+    sites = list(g.calls("mi_free_block_local"))
+    ok = bool(sites) and all(block_ok(g, rl.arg(g, c, 1), c) for c in sites)
+    ctx.check(R, ok, g.where(), "block = has_aligned ? _mi_page_ptr_unalign(page,p) : p on every path into mi_free_block_local (a full page may also hold aligned blocks)", key="C03.R3:local")
     h = prog.fn("mi_free_generic_mt")
     ok = any(rl.var_of(h, rl.arg(h, c, 1)) == h.param_id(2) for c in h.calls("_mi_page_ptr_unalign")) and not any(True for _ in h.calls("mi_page_has_aligned"))
     ctx.check(R, ok, h.where(), "remote free always un-aligns", key="C03.R3:mt")
